@@ -149,6 +149,24 @@ func fieldByJSON(t *types.Named, tag string) *types.Var {
 			return st.Field(i)
 		}
 	}
+	// the tag may have been renamed (C16 reports that); other properties still need the option:
+	// fall back on the Go identifier derived from the documented key
+	var parts []string
+	for _, w := range strings.Split(tag, "_") {
+		switch w {
+		case "aws", "id":
+			parts = append(parts, strings.ToUpper(w))
+		case "":
+		default:
+			parts = append(parts, strings.ToUpper(w[:1])+w[1:])
+		}
+	}
+	goName := strings.Join(parts, "")
+	for i := 0; i < st.NumFields(); i++ {
+		if st.Field(i).Name() == goName {
+			return st.Field(i)
+		}
+	}
 	return nil
 }
 
